@@ -51,11 +51,11 @@ pub fn val_to_model(v: &Val) -> Value {
         Val::Integer(n) => json!({"t":"I","n":n,"e":0,"s":[],"x":true}),
         Val::Single(f) => match to_dyadic(*f as f64) {
             Some((n, e)) => json!({"t":"S","n":n,"e":e,"s":[],"x":true}),
-            None => json!({"t":"S","n":0,"e":0,"s":[],"x":false,"raw":format!("{}", f)}),
+            None => json!({"t":"S","n":0,"e":0,"s":[],"x":false}),
         },
         Val::Double(f) => match to_dyadic(*f) {
             Some((n, e)) => json!({"t":"D","n":n,"e":e,"s":[],"x":true}),
-            None => json!({"t":"D","n":0,"e":0,"s":[],"x":false,"raw":format!("{}", f)}),
+            None => json!({"t":"D","n":0,"e":0,"s":[],"x":false}),
         },
         Val::String(s) => json!({"t":"$","n":0,"e":0,"s":string_to_cps(s),"x":true}),
         Val::Return(a) => json!({"t":"R","n":a,"e":0,"s":[],"x":true}),
